@@ -645,6 +645,10 @@ func runC06(r *vk.Run) {
 			for i, kv := range pairs {
 				if rng.Bool() {
 					dst := fmt.Sprintf("r%d", i)
+					if _, taken := expect[kv[0]]; !taken && isIdent(kv[0]) && kv[0] != "app" && kv[0] != "msg" && !strings.HasPrefix(kv[0], "__") && kv[0] != dupKey && rng.Chance(1, 4) {
+						dst = kv[0] // stored under the key's own name: the same answer as under any other
+						c.Count("logfmt_own_name_renames", 1)
+					}
 					parts = append(parts, dst+"="+quoteLogQL(kv[0]))
 					expect[dst] = kv[1]
 					dupLabel[dst] = kv[0] == dupKey
